@@ -2,6 +2,7 @@
 import os
 from pathlib import Path
 
-for _n in ("fix_loop_self_dependence.py", "fix_subscr_def_py312.py", "fix_cdg_cycle_control_dependency.py", "fix_lineless_instruction.py"):
+for _n in ("fix_loop_self_dependence.py", "fix_subscr_def_py312.py", "fix_cdg_cycle_control_dependency.py", "fix_lineless_instruction.py",
+           "fix_jump_into_empty_block.py"):
     _p = Path(os.environ["VERIF_SELFTEST_PATCH"]).parent / _n
     exec(compile(_p.read_text(), str(_p), "exec"), {"__name__": "selftest_patch"})  # noqa: S102
